@@ -30,12 +30,12 @@ def build(chk):
         k = P.real(f'{pre}_k')
         return chk.M.function('Linear', chk.M.linear(terms, k)), SymFn([([i], c) for i, c in terms] + [([], k)])
 
-    def mk(n, variant):
+    def mk(n, variant, part_idx=None):
         ids = SAMPLE_IDS[:n]
         parts = list(partitions(ids))
 
         def h(P):
-            part = parts[P.choose(len(parts))]
+            part = parts[P.choose(len(parts))] if part_idx is None else parts[part_idx]
             lo2, hi2 = P.real('lo2'), P.real('hi2')
             lo5 = P.real('lo5')
             vars_ = [Var(1, 3), Var(2, 2, (lo2, hi2)), Var(5, 3, (lo5, PINF))]
@@ -137,6 +137,11 @@ def build(chk):
     for n in range(1, NMAX + 1):
         for variant in ('plain', 'omit-irrelevant', 'fixed+dependent'):
             regs = ['irrelevant-variable-omitted'] if variant == 'omit-irrelevant' else []
+            if n >= 3:
+                # one job per partition of the sample ids, so the 16 cores share the work
+                for pi in range(len(list(partitions(SAMPLE_IDS[:n])))):
+                    chk.harness(f'evaluate_samples:{n}-samples/{variant}/partition{pi}', mk(n, variant, pi), regions=[], hash_order='canonical')
+                continue
             chk.harness(f'evaluate_samples:{n}-samples/{variant}', mk(n, variant), regions=regs, hash_order='all' if (n == 1 and variant == 'plain') else 'canonical')
     chk.validation('evaluate_samples', lambda c: validate(c, evs, get))
 
